@@ -13,4 +13,5 @@ let all : (string * (Model.event list -> bool)) list = [
   ("C05", Model.chk_C05);
   ("C16", Model.chk_C16);
   ("C09q", Model.chk_C09q);
+  ("C09s", Model.chk_C09s);
 ]
